@@ -33,7 +33,7 @@ def walk (structs : List (String × SegMap)) (m : SegMap) (p : Path) : Path → 
       | .any => .found (fieldAtPath m (p ++ [s']))
       | .struct n =>
         match getKV structs n with
-        | none => .panic ("struct `" ++ n ++ "` not found")
+        | none => .absent                -- a field naming an undefined struct leads nowhere
         | some strukt => walk structs strukt [] (r :: rest)
       | _ => walk structs m (p ++ [s']) (r :: rest)
 
